@@ -370,6 +370,48 @@ Definition dmet_book_repaired (natm : nat) (fa : frag_atoms) (n_frozen : nat) (s
       end
   end.
 
+(* ---- the chain of index checks as it stands in the source (regenerated by translator/decomp_facts.py into
+        Gen.DecompFacts.dmet_checks): each element is one `if/elif <test>: raise RuntimeError` of the nested branch, in order *)
+Inductive dmet_check : Type := ChkHigher | ChkNegative | ChkOnce | ChkCover.
+Definition dmet_check_eqb (a b : dmet_check) : bool :=
+  match a, b with
+  | ChkHigher, ChkHigher | ChkNegative, ChkNegative | ChkOnce, ChkOnce | ChkCover, ChkCover => true
+  | _, _ => false
+  end.
+Definition check_fails (natm : nat) (flat : list Z) (mx : Z) (c : dmet_check) : option perr :=
+  match c with
+  | ChkHigher => if (Z.of_nat natm <=? mx)%Z then Some (RuntimeError "higher") else None
+  | ChkNegative => if existsb (fun i => (i <? 0)%Z) flat then Some (RuntimeError "negative") else None
+  | ChkOnce => if negb (Nat.eqb (length flat) (length (nodup Z.eq_dec flat))) then Some (RuntimeError "once") else None
+  | ChkCover => if negb (Nat.eqb (length flat) natm) then Some (RuntimeError "sites") else None
+  end.
+Fixpoint first_failure (natm : nat) (flat : list Z) (mx : Z) (cs : list dmet_check) : option perr :=
+  match cs with
+  | [] => None
+  | c :: r => match check_fails natm flat mx c with Some e => Some e | None => first_failure natm flat mx r end
+  end.
+(* the constructor with the check chain [cs] (the chain must start with the max() test: translator requirement) *)
+Definition dmet_book_src (cs : list dmet_check) (natm : nat) (fa : frag_atoms) (n_frozen : nat) (sv : solvers_arg) (op : options_arg)
+  : res dmet_book :=
+  match fa with
+  | FaCounts l => dmet_tail (seq 0 natm) l n_frozen sv op
+  | FaNested l =>
+      let flat := concat l in
+      match zmax flat with
+      | None => Err ValueError
+      | Some mx =>
+          match first_failure natm flat mx cs with
+          | Some e => Err e
+          | None =>
+              do order <- mapM (fun i => match py_index natm i with Some k => Ok k | None => Err IndexError end) flat;
+              dmet_tail order (map (fun f => Z.of_nat (length f)) l) n_frozen sv op
+          end
+      end
+  end.
+Definition checks_cover (cs : list dmet_check) : bool :=
+  existsb (dmet_check_eqb ChkHigher) cs && existsb (dmet_check_eqb ChkNegative) cs
+  && existsb (dmet_check_eqb ChkOnce) cs && existsb (dmet_check_eqb ChkCover) cs.
+
 (* _oneshot_loop: number_of_electron = 0.0; += n_electron_frag ...; return number_of_electron - N *)
 Definition oneshot_cost {R : CRing} (n_frag : list R) (n_total : R) : R := (rsum n_frag - n_total)%Rg.
 
@@ -388,3 +430,9 @@ Arguments fragment_init {R}. Arguments select_asis {R}. Arguments select_repaire
 Arguments caps_of {R}. Arguments deref {R}. Arguments distribute_asis_loop {R}.
 Arguments distribute_asis {R}. Arguments distribute_repaired {R}.
 Arguments fragment_energy {R}. Arguments oniom_simulate {R}. Arguments oniom_asis {R}. Arguments oniom_repaired {R}.
+
+(* ---- distribute_atoms with the fact regenerated from the source: does the selected_atoms=None branch copy self.geometry? *)
+Definition distribute_src {R : CRing} (copies : bool) (sys : geometry R) (frs : list (fragment R)) : res (geometry R * list (geometry R)) :=
+  if copies then distribute_repaired sys frs else distribute_asis sys frs.
+Definition oniom_src {R : CRing} (copies : bool) (E : level -> geometry R -> R) (sys : geometry R) (frs : list (fragment R)) : res R :=
+  do d <- distribute_src copies sys frs; Ok (oniom_simulate E (combine frs (snd d))).
